@@ -235,6 +235,36 @@ fn markup_case(src: &mut Src, ctx: &mut Ctx) -> Result<(), String> {
     r
 }
 
+// ---- histories: several saves to one path, then open -------------------------------------------------------
+fn overwrite_case(src: &mut Src, ctx: &mut Ctx) -> Result<(), String> {
+    let (fmt, fname) = fmt_of(src.below(2));
+    let n = src.usize_in(2, 4);
+    let path = scratch_path(&format!("c18.hist.{}", fname));
+    let mut last: Option<String> = None;
+    let mut sizes = vec![];
+    let r = (|| -> Result<(), String> {
+        for _ in 0..n {
+            let lib = to_gds(&hostile_gds(src));
+            SerdeFile::save(&lib, &path, fmt).map_err(|e| format!("save to {} failed: {}", fname, e))?;
+            sizes.push(std::fs::metadata(&path).map(|m| m.len()).unwrap_or(0));
+            last = Some(format!("{:?}", lib));
+        }
+        let back = <gds21::GdsLibrary as SerdeFile>::open(&path, fmt).map_err(|e| format!("after {} saves to one path (file sizes {:?}) the {} file does not load: {}", n, sizes, fname, e))?;
+        let b = format!("{:?}", back);
+        if Some(&b) != last.as_ref() {
+            return Err(format!("after {} saves to one path (file sizes {:?}) open() does not return the last library saved; {}", n, sizes, first_diff(last.as_ref().unwrap(), &b)));
+        }
+        Ok(())
+    })();
+    let _ = std::fs::remove_file(&path);
+    if sizes.windows(2).any(|w| w[1] < w[0]) {
+        ctx.label("history: a shorter file saved over a longer one");
+        ctx.nontrivial(hash_of(&(&sizes, fname)));
+    }
+    ctx.sample("save history", || format!("{} saves to one {} path, sizes {:?}", n, fname, sizes));
+    r
+}
+
 // ---- scalar sweeps ------------------------------------------------------------------------------------------------
 fn scalar_case(src: &mut Src, ctx: &mut Ctx) -> Result<(), String> {
     let (fmt, fname) = fmt_of(src.below(2));
@@ -277,6 +307,7 @@ fn run(run: &mut Run) {
     run.explore("gds-markup", run.tier.pick(8_000, 150_000), 1800, &gds_case);
     run.explore("lef-markup", run.tier.pick(5_000, 100_000), 2600, &lef_case);
     run.explore("gds-file-markup-file", run.tier.pick(2_000, 40_000), 1800, &markup_case);
+    run.explore("save-histories", run.tier.pick(3_000, 60_000), 4000, &overwrite_case);
     run.explore("scalars", run.tier.pick(8_000, 300_000), 120, &scalar_case);
 }
 fn case(sub: &str) -> Option<Box<CaseFn<'static>>> {
@@ -285,6 +316,7 @@ fn case(sub: &str) -> Option<Box<CaseFn<'static>>> {
         "lef-markup" => Some(Box::new(lef_case)),
         "gds-file-markup-file" => Some(Box::new(markup_case)),
         "scalars" => Some(Box::new(scalar_case)),
+        "save-histories" => Some(Box::new(overwrite_case)),
         _ => None,
     }
 }
